@@ -11,7 +11,14 @@ import (
 	"golang.org/x/tools/go/ssa/ssautil"
 )
 
-const repoDir = "/repo"
+// repoDir is the tree under verification: /repo. GOVC_REPO points the self-test corpus at a scratch worktree of /repo
+// instead, so that seeded changes can be checked in parallel without touching /repo; no registered check sets it.
+var repoDir = func() string {
+	if d := os.Getenv("GOVC_REPO"); d != "" {
+		return d
+	}
+	return "/repo"
+}()
 const modPath = "github.com/crewjam/saml"
 
 type Loaded struct {
